@@ -18,6 +18,7 @@ import resp
 from core import Exn, cstr, cbool, clist
 from saml2_tophat import sigver, saml, samlp, class_name, BINDING_HTTP_POST
 import xmlsec_core
+import c20_hist
 
 CLAIM = {
     "text": "Coq theorems (Props/C20.v) for an ARBITRARY tool (every theorem quantifies over all tool results: not startable, killed by signal, any stdout/stderr/output-file content, undecodable bytes): success is recognised only by a line that is exactly OK with no OK/FAIL line before it; if no invocation made for the candidate certificates reports success the signature check raises - whatever only_valid_cert and the certificate validation say (C20_verify; the library before fix 0b54cc6b returned normally with only_valid_cert on: C20_verify_before_fix_refuted, C20_verify_before_fix_partial); signing/encryption return only a started, unsignalled run's own non-empty output file, never the input; decrypt_keys returns a real tool output or the unchanged ciphertext. Tie to the code: scripted-Popen correspondence of every backend function and of _check_signature (random tool triples and the complete table catalogue^3 x only_valid_cert x certificate-validation verdict) against the model, and a fault-mode x site x position enumeration through the real SP/IdP/metadata entry points judged by the property.",
@@ -507,6 +508,11 @@ def run(ctx):
     unit_parse_output(ctx)
     unit_backend(ctx)
     unit_e2e(ctx)
+    # what a FAILED operation leaves behind (long-lived store / SP / IdP): harness/c20_hist.py
+    c20_hist.unit_store_history(ctx, Scripted, gen_tool, coq_tool, _reports_success, _show_tool)
+    with env.Clock(env.NOW):
+        c20_hist.unit_store_faults(ctx, MODES, ctx_work())
+    c20_hist.unit_sp_history(ctx, MODES, ctx_work())
 
 
 def replay(ctx, payload):
